@@ -193,6 +193,12 @@ class CodecKernel:
         # PickupManager.from_dict re-applies every pickup (manager.add) instead of only re-attaching it
         rr = self.method_rows('optiland/pickup.py', 'PickupManager', 'from_dict') or []
         f['pickups_applied_on_load'] = any('manager.add(' in v for k, v in rr)
+        # Plane.to_dict drops a conic constant kept on the flat surface (attribute k) unless it writes a 'conic' entry
+        rr = self.method_rows('optiland/geometries/plane.py', 'Plane', 'to_dict') or []
+        f['plane_conic'] = any(k.strip().endswith('.conic') or k.strip() == 'conic' for k, v in rr)
+        # EvenAsphere.to_dict / from_dict hand the coefficient list itself to the dictionary / the new geometry
+        rr = dict(self.method_rows('optiland/geometries/even_asphere.py', 'EvenAsphere', 'to_dict') or [])
+        f['evenasphere_copies'] = rr.get('data.coefficients', 'self.c') != 'self.c'
         self.flags = f
         out = ['(* defect-site flags read off the current sources (see tools/py2coq_codec.py) *)']
         for k, v in f.items():
